@@ -280,6 +280,32 @@ def run(ctx, res):
                 res.count('internal:' + name)
                 if st == 'ok':
                     res.fail('C11:%s:%s' % (ext, name), 'failure source %s did not make the write fail' % name, {'ext': ext, 'source': name})
+    # the game's own Lua object left unparseable by a rejected edit (update_from_lines raised, the caller went on), written with
+    # every writer incl. the default one: "the transformed code does not re-parse" (.p8) / the tree-driven writers raise
+    for ext in ('.p8', '.p8.png'):
+        for edit in (b'if x then\n', b'for i=1 do\n', b'y = = 2\n'):
+            for wname, wcls, wargs in writers:
+                g = U.make_game(rng=rng, code=b'x=1\n', version=8)
+                try:
+                    g.lua.update_from_lines([edit])
+                    continue            # the edit was accepted: not a failure source
+                except Exception:
+                    pass
+                kw = {'lua_writer_cls': wcls, 'lua_writer_args': wargs} if wcls else {}
+                try:
+                    lua.Lua.from_lines(list(g.lua.to_lines(writer_cls=wcls, writer_args=wargs)), version=8)
+                    reparses = True
+                except Exception:
+                    reparses = False
+                if ext == '.p8.png' and reparses:
+                    continue
+                if ext == '.p8.png' and wcls is None or (ext == '.p8.png' and wname in ('echo', 'minify')):
+                    continue            # the PNG encoder does not re-parse; token writers do not raise: no failure there
+                dest = os.path.join(ctx.tmp, 'edit_%s%s' % (wname, ext))
+                for before in (old if ext == '.p8' else None, None):
+                    st, _ = check_run(res, '%s-rejected-edit-%s' % (ext, wname), g, dest, before, None, not reparses, **kw)
+                    res.nontrivial.add((ext, 'rejected-edit', wname, edit, before is not None))
+                    res.count('rejected-edit' + ext)
     res.sample({'format': '.p8', 'writer': 'fmt', 'fault_at_write': 5, 'dest_existed': True})
     # CLI: luafmt --overwrite on a cart whose code does not parse to its end leaves the cart untouched
     from pico8 import tool
